@@ -118,7 +118,8 @@ def column_read(text: str, drop: bool):
         if rec in ("ATOM  ", "HETATM") and len(raw.rstrip()) >= 47:
             try:
                 serial = int(raw[6:11])
-                key = (raw[21], ters if raw[21] == " " else 0, raw[22:26], raw[26], raw[12:16].strip())
+                # (waters are never given a chain identifier, so a TER does not separate them)
+                key = (raw[21], ters if raw[21] == " " and raw[17:20].strip() not in ("HOH", "WAT") else 0, raw[22:26], raw[26], raw[12:16].strip())
                 float(raw[30:38]), float(raw[38:46]), float(raw[46:54])
             except ValueError:
                 continue
